@@ -15,7 +15,8 @@ if ! (cd "$W/repo" && patch -p1 -s < "$PATCH" >"$W/patch.log" 2>&1); then
   echo "PATCH-DOES-NOT-APPLY $(basename "$PATCH")"; cat "$W/patch.log"; rm -rf "$W"; exit 2
 fi
 mkdir -p "$W/sim"
-cp -r "$ROOT/sim/src" "$ROOT/sim/Cargo.toml" "$ROOT/sim/Cargo.lock" "$ROOT/sim/.cargo" "$W/sim/"
+SIMSRC="${SIM_SRC:-$ROOT/sim}"   # SIM_SRC: a frozen copy of the simulator sources (baseline runs while sim/ is being edited)
+cp -r "$SIMSRC/src" "$SIMSRC/Cargo.toml" "$SIMSRC/Cargo.lock" "$SIMSRC/.cargo" "$W/sim/"
 sed -i "s#path = \"/repo\"#path = \"$W/repo\"#" "$W/sim/Cargo.toml"
 cp "$ROOT/known_findings.json" "$W/"
 if ! (cd "$W/sim" && CARGO_NET_OFFLINE=true cargo build --release --offline >"$W/build.log" 2>&1); then
